@@ -57,6 +57,7 @@ PHASES = {
     "C14": [
         {"pkg": "e2", "test": "TestC14CrossNode", "phase": "C14/cross-node-delivery"},
         {"pkg": "e2", "test": "TestC14FailedPeer", "phase": "C14/failed-peer"},
+        {"pkg": "e2", "test": "TestC14FilterSets", "phase": "C14/filter-sets"},
         # the inter-node wiring of package main: two real brokers on loopback ports, node B's RPC endpoint cut by a relay
         {"pkg": "e5", "test": "TestC14RealCluster", "phase": "C14/real-cluster-wiring"},
     ],
@@ -75,6 +76,9 @@ PHASES = {
         {"pkg": "e2", "test": "TestC11PeersFailTogether", "phase": "C11/peers-fail-together"},
         {"pkg": "e2", "test": "TestC11GracefulShutdown", "phase": "C11/graceful-shutdown"},
         {"pkg": "e2", "test": "TestC11SlowAcks", "phase": "C11/late-answers-to-every-copy"},
+        # a reconnection under the same client identifier with the built-in handlers' session identifiers: the current
+        # session must survive the end of the previous connection (same paths as C03's)
+        {"pkg": "e2", "test": "TestC03Reconnect", "phase": "C03/reconnect-under-same-client-id"},
     ],
     "C05": [
         {"pkg": "e2", "test": "TestC05StoreBeforeAck", "phase": "C05/store-before-ack"},
@@ -148,6 +152,7 @@ PHASES = {
         {"pkg": "e1", "test": "TestC19Topics", "phase": "C19/topics-store"},
         {"pkg": "e1", "test": "TestC19Subs", "phase": "C19/subscription-index"},
         {"pkg": "e1", "test": "TestC19SessionTopics", "phase": "C19/session-topic-list"},
+        {"pkg": "e1", "test": "TestC19EmptyLevels", "phase": "C19/empty-levels"},
     ],
 }
 
